@@ -252,6 +252,7 @@ func runC14(r *core.Run) {
 		getErr      error
 		lastErr     error
 		endErr      error // error of the attempt's last seam call (nil when that call succeeded)
+		commits     int   // TryCommit calls on this attempt's workspace
 		readManif   bool
 		wroteManif  bool
 		commitOK    bool
@@ -306,6 +307,7 @@ func runC14(r *core.Run) {
 				x.manifBefore = x.readManif
 			}
 		case "TryCommit":
+			x.commits++
 			if c.Err == nil {
 				x.commitOK = true
 			}
@@ -360,6 +362,10 @@ func runC14(r *core.Run) {
 		}
 		if !snapshot && x.wroteManif && !x.manifBefore {
 			r.Fail("stale-manifest-lost-update", "manifest-not-reread", "%s: attempt %d rewrote the manifest without reading it in its own workspace", where, i+1)
+		}
+		if x.commits > 1 {
+			// a second commit try is a second attempt, and it did not start from a fresh workspace
+			r.Fail("too-many-attempts", "recommit-from-the-same-workspace", "%s: the workspace of attempt %d was submitted %d times: a failed commit is retried from a fresh workspace that re-reads the manifest, not from the stale one", where, i+1, x.commits)
 		}
 		if !x.commitOK && x.destroyed == 0 {
 			r.Fail("workspace-leaked", "tryChange", "%s: the workspace of failed attempt %d was never destroyed", where, i+1)
